@@ -569,7 +569,14 @@ fn presentation_case(ctx: &ChildCtx, sh: &mut Shard, idx: u64, r: &mut CRng) {
         let web3 = match (idx + ctx.shard as u64) % 3 {
             0 => false,
             1 => true,
-            _ => r.0.chance(1, 2),
+            // mixed presentations: web3 and account credentials alternate (a single credential: either kind)
+            _ => {
+                if n_creds == 1 {
+                    r.0.chance(1, 2)
+                } else {
+                    (ci as u64 + idx / 8) % 2 == 0
+                }
+            }
         };
         let n_attrs = 1 + r.0.below(4) as usize;
         let network = if r.0.chance(1, 2) { Network::Testnet } else { Network::Mainnet };
@@ -933,6 +940,59 @@ fn presentation_case(ctx: &ChildCtx, sh: &mut Shard, idx: u64, r: &mut CRng) {
                     }
                 }
                 rej(sh, what, false, &p2, &public, g);
+            }
+        }
+        // ---- mixed presentations: the linking signatures of the web3 credentials cover the serialization of
+        // ALL credential proofs, so every field of an account credential proof is bound as well
+        let mixed = creds.iter().any(|x| x.web3) && creds.iter().any(|x| !x.web3);
+        if mixed {
+            sh.hit(if c.web3 { "pres.mixed.credential.web3" } else { "pres.mixed.credential.account" });
+        }
+        if mixed && !c.web3 {
+            for field in ["issuer", "network", "cred_id", "created"] {
+                let mut p2 = match clone_pres(&pres_json) {
+                    Some(p) => p,
+                    None => continue,
+                };
+                if let CredentialProof::Account { cred_id, network, issuer, created, .. } = &mut p2.verifiable_credential[i] {
+                    match field {
+                        "issuer" => *issuer = IpIdentity(issuer.0 + 1),
+                        "network" => *network = if *network == Network::Testnet { Network::Mainnet } else { Network::Testnet },
+                        "cred_id" => *cred_id = CredentialRegistrationID::new(G1::generate(r)),
+                        _ => *created += chrono::Duration::try_seconds(1).unwrap(),
+                    }
+                }
+                rej(sh, &format!("mixed.account.{}", field), true, &p2, &public, g);
+            }
+        }
+        if mixed && c.web3 {
+            for field in ["holder", "contract", "network", "created", "commitments.signature", "commitments.commitment"] {
+                sh.hit(&format!("pres.mixed.web3.{}", field));
+            }
+        }
+        // one bit of one statement proof (any kind of credential)
+        if n_st > 0 {
+            let k = r.0.below(n_st as u64) as usize;
+            if let Some(mut p2) = clone_pres(&pres_json) {
+                let slot: &mut AtomicProof<G1, Attr> = match &mut p2.verifiable_credential[i] {
+                    CredentialProof::Account { proofs, .. } => &mut proofs[k].1,
+                    CredentialProof::Web3Id { proofs, .. } => &mut proofs[k].1,
+                };
+                let mut b = to_bytes(&*slot);
+                let at = 1 + r.0.below(b.len() as u64 - 1) as usize;
+                b[at] ^= 1 << r.0.below(8);
+                match deser::<AtomicProof<G1, Attr>>(&b) {
+                    Some(x) => {
+                        *slot = x;
+                        let kind = if c.web3 { "web3" } else { "account" };
+                        rej(sh, &format!("{}{}.proof_bitflip", if mixed { "mixed." } else { "" }, kind), true, &p2, &public, g);
+                    }
+                    None => {
+                        sh.evaluations += 1;
+                        sh.hit("reject.expected");
+                        sh.hit("reject.undeserializable");
+                    }
+                }
             }
         }
         let _ = &vcs;
